@@ -90,7 +90,7 @@ class Run:
                         ob.meta["abstract_first"] = True
             if c.gen is not None:
                 for ob in self.sink.obls[n0:]:
-                    if ob.replay is None and ob.kind in ("post", "preserve", "establish", "frame", "bounds", "call-pre"):
+                    if ob.replay is None and ob.kind in ("post", "preserve", "establish", "frame", "bounds", "call-pre", "step"):
                         ob.replay = (lambda c=c, cfs=cfs: (lambda model: self._fuzz(cfs, c)))()
             self.functions.append({"file": c.file, "function": c.func + (c.tag or ""), "line": cf.fn_line(c.func),
                                    "sha1": cf.fn_sha(c.func), "obligations": len(self.sink.obls) - n0})
@@ -183,6 +183,14 @@ class Run:
                 violations.append(o)
             else:
                 undecided.append(o)
+        # an undecided obligation whose replay harness finds a failing input on the real code is a violation
+        for o in list(undecided):
+            if o.replay is not None:
+                rp = self.replay(o)
+                if rp.get("reproduced"):
+                    o.detail = "undecided by the solver (%s); failing input found by running the real code" % (o.detail or o.status)
+                    undecided.remove(o)
+                    violations.append(o)
         # lock drift: every locked semantic obligation must still be generated
         names = {o.name for o in obls}
         missing = [n for n, m in self.lock.items() if n not in names and m.get("kind") in ("post", "preserve", "establish", "equiv", "lemma", "sum", "deriv", "cont", "thermo", "doc", "finite", "vertex", "race")]
